@@ -3,6 +3,7 @@ Codec/C14.lean — JSON codecs for the C14 driver (driver side only; no proofs d
 -/
 import SqlframeModel.Codec.Basic
 import SqlframeModel.Impl.C14Scope
+import SqlframeModel.Impl.C14Options
 namespace Sqlframe.C14
 open Lean Sqlframe
 
@@ -10,6 +11,9 @@ deriving instance FromJson, ToJson for Ty
 deriving instance FromJson, ToJson for Frame
 deriving instance FromJson, ToJson for Op
 deriving instance FromJson, ToJson for Call
+deriving instance FromJson, ToJson for Gen.OptVal
+deriving instance FromJson, ToJson for RCall
+deriving instance FromJson, ToJson for Via
 
 def tyJson : Ty → Json | .int => "int" | .str => "str"
 
@@ -25,5 +29,15 @@ def resJson (r : Res) : Json :=
 
 def pathResJson : PathRes → Json
   | .ok => "ok" | .refused => "refused" | .notImplemented => "notImplemented" | .failed => "failed"
+
+/-- an option value as plain JSON (the check renders it for the engine, quoting strings) -/
+def optValPlain : Gen.OptVal → Json
+  | .none => Json.null
+  | .bool b => toJson b
+  | .str s => toJson s
+  | .int i => toJson i
+
+def optsPlain (o : Opts) : Json := Json.arr (o.map (fun e => Json.arr #[toJson e.1, optValPlain e.2])).toArray
+def renderedJson (o : List (String × String)) : Json := Json.arr (o.map (fun e => Json.arr #[toJson e.1, toJson e.2])).toArray
 
 end Sqlframe.C14
